@@ -2,7 +2,7 @@
    Z, positive, N, nat stay the extracted inductives; no Extract Constant). *)
 From Coq Require Extraction.
 From Coq Require Import ExtrOcamlBasic.
-From RLBoxV Require Import Machine Conv Conv_proofs Ptr Bulk Layout AppPtr World Calls Calls_proofs Invoke Mem Ops Verify Casts ScopeExit Symbols.
+From RLBoxV Require Import Machine Conv Conv_proofs Ptr Bulk Layout AppPtr World Calls Calls_proofs Invoke Mem Ops Verify Casts ScopeExit Symbols FloatCmp.
 Extraction Language OCaml.
 Extraction "model.ml"
   Z.add Z.mul Z.sub Z.div_eucl Z.of_nat Z.to_nat Z.eqb Z.leb Z.ltb Z.opp Z.pow Z.modulo
@@ -24,6 +24,7 @@ Extraction "model.ml"
   invoke invoke_spec cv sv
   sx_run sx_step sx_init
   sstep srun sspec symw_init first_times
+  fdecode fof_int fcompare ftruth wfcompare wfcompare_negating
   image sandbox_static_cast sandbox_ptr_cast
   vrun cv_value cv_ptr cv_range cv_string_unique cv_string_std cmda cstrlen apply_muts
   cop cuop wbin wcompound ccompound cincdec wincdec code_postdec_ok common promote
